@@ -78,3 +78,11 @@ CLAIMED['C06'] = (
     'np.fft by the Wiener-Khinchin contract (exact over the reals); floats read as reals, physical constants/time step exact rationals; metric tensor = M M^T; z3.',
     'DESIGN.md §3 C06')
 NOT_APPLICABLE.pop('C06', None)
+CLAIMED['C14'] = (
+    'symbolic execution of TrajectoryMetrics / TrajectoryMetricsStd / center_of_mass on displacement-form trajectories with symbolic charge and temperature; polynomial identities and scaling relations decided by z3',
+    'Formulas (density, molarity, tracer and centre-of-mass diffusivity, Nernst-Einstein conductivity as numerator/denominator of the code\'s quotient, Haven ratio, mean/std over parts), '
+    'the k^2, k^-3, 1/s scaling laws for concrete k, s, Haven ratio one for identical motion, and sum of amplitudes = final distance are z3-unsat obligations for all trajectories of the bounded shapes.',
+    'Attempt frequency / vibration-amplitude scaling are outside (periodogram). Constants, masses, time step exact rationals; symbolic divisions become quotient symbols with defining facts; '
+    'distance series cut to arbitrary non-negative reals for amplitudes; z3.',
+    'DESIGN.md §3 C14')
+NOT_APPLICABLE.pop('C14', None)
